@@ -139,10 +139,12 @@ template <typename D> struct Replayer {
         regs[r].project(varlist(st["vs"]));
       } else if (op == "rename") {
         // the `to` variables must be unconstrained: forget them first
-        regs[r].forget(varlist(st["to"]));
+        // "raw": the generator guarantees that `to` was never constrained in this register, so rename/expand is
+        // the first (and only) operation applied (needed to exercise copy-on-write detaching in these operations)
+        if (!st.geti("raw", 0)) regs[r].forget(varlist(st["to"]));
         regs[r].rename(varlist(st["from"]), varlist(st["to"]));
       } else if (op == "expand") {
-        regs[r] -= vt.v(st["y"].i());
+        if (!st.geti("raw", 0)) regs[r] -= vt.v(st["y"].i());
         regs[r].expand(vt.v(st["x"].i()), vt.v(st["y"].i()));
       } else if (op == "join") {
         if (st.geti("inplace", 0) && r == st["a"].i())
